@@ -59,20 +59,24 @@ Proof. rewrite lib_low_s_eq. destruct (_ <? _); auto. Qed.
 
 Lemma lib_sign_with_eq low d msg k ht : lib_sign_with low d msg k ht =
   let dg := lib_digest msg in
-  match ecdsa_sign d (lib_z dg) (lib_pick_nonce d dg k) with
-  | None => None
-  | Some (r, s0) =>
-      let s := low s0 in
-      if (0 <=? ht) && (ht <? 256) then Some (r, s, der_enc r s ++ [zb ht]) else None
-  end.
+  if (1 <=? d) && (d <? secp_n) then
+    match ecdsa_sign d (lib_z dg) (lib_pick_nonce d dg k) with
+    | None => None
+    | Some (r, s0) =>
+        let s := low s0 in
+        if (0 <=? ht) && (ht <? 256) then Some (r, s, der_enc r s ++ [zb ht]) else None
+    end
+  else None.
 Proof. reflexivity. Qed.
 
 (* everything lib_sign returns comes from the textbook signer at the digest / nonce the code derives *)
 Lemma lib_sign_inv low d msg k ht r s enc : lib_sign_with low d msg k ht = Some (r, s, enc) ->
   exists s0, ecdsa_sign d (lib_z (lib_digest msg)) (lib_pick_nonce d (lib_digest msg) k) = Some (r, s0) /\
-             s = low s0 /\ enc = der_enc r s ++ [zb ht] /\ 0 <= ht < 256.
+             s = low s0 /\ enc = der_enc r s ++ [zb ht] /\ 0 <= ht < 256 /\ 1 <= d < secp_n.
 Proof.
   rewrite lib_sign_with_eq. cbv zeta.
+  destruct ((1 <=? d) && (d <? secp_n)) eqn:Ed; [|discriminate].
+  apply andb_true_iff in Ed. destruct Ed as [Ed1 Ed2]. apply Z.leb_le in Ed1. apply Z.ltb_lt in Ed2.
   destruct (ecdsa_sign _ _ _) as [[r0 s0]|]; [|discriminate].
   destruct ((0 <=? ht) && (ht <? 256)) eqn:Eh; [|discriminate]. intros H.
   apply andb_true_iff in Eh. destruct Eh as [E1 E2]. apply Z.leb_le in E1. apply Z.ltb_lt in E2.
@@ -85,7 +89,7 @@ Qed.
 Lemma lib_sign_low_s d msg k ht r s enc : lib_sign d msg k ht = Some (r, s, enc) ->
   1 <= r < secp_n /\ 1 <= s <= (secp_n - 1) / 2.
 Proof.
-  intros H. destruct (lib_sign_inv _ _ _ _ _ _ _ _ H) as (s0 & Hs & -> & _ & _).
+  intros H. destruct (lib_sign_inv _ _ _ _ _ _ _ _ H) as (s0 & Hs & -> & _ & _ & _).
   destruct (ecdsa_sign_range _ _ _ _ _ Hs) as [Hr Hs0]. split; [exact Hr|]. apply lib_low_s_range. exact Hs0.
 Qed.
 
@@ -99,7 +103,7 @@ Lemma lib_sign_encoding d msg k ht r s enc : lib_sign d msg k ht = Some (r, s, e
   spec_parse enc = Some (r, s, ht).
 Proof.
   intros H. destruct (lib_sign_low_s _ _ _ _ _ _ _ H) as [Hr Hs].
-  destruct (lib_sign_inv _ _ _ _ _ _ _ _ H) as (s0 & _ & _ & -> & Hht).
+  destruct (lib_sign_inv _ _ _ _ _ _ _ _ H) as (s0 & _ & _ & -> & Hht & _).
   pose proof secp_n_lt_2_256. pose proof half_lt_n.
   assert (Hr' : 0 < r < 2 ^ 256) by lia. assert (Hs' : 0 < s < 2 ^ 256) by lia.
   pose proof (der_strict r s (zb ht) Hr' Hs') as Hstrict.
@@ -111,11 +115,13 @@ Qed.
 
 (* nonce_is_rfc6979: without an explicit nonce the result is the normalised textbook signature at the
    RFC 6979 nonce of (d, SHA256 (hex text of the digest)) — a function of the key and the digest only *)
-Lemma lib_sign_deterministic d msg ht : 0 <= ht < 256 ->
+Lemma lib_sign_deterministic d msg ht : 1 <= d < secp_n -> 0 <= ht < 256 ->
   lib_sign d msg None ht =
   with_der ht (spec_sign d (lib_z (lib_digest msg)) (rfc6979_nonce d (sha256 (hex_ascii (lib_digest msg))))).
 Proof.
-  intros Hht. unfold lib_sign. rewrite lib_sign_with_eq. cbv zeta. unfold with_der, spec_sign, spec_normalise.
+  intros Hd Hht. unfold lib_sign. rewrite lib_sign_with_eq. cbv zeta. unfold with_der, spec_sign, spec_normalise.
+  replace ((1 <=? d) && (d <? secp_n)) with true
+    by (symmetry; apply andb_true_iff; split; [apply Z.leb_le|apply Z.ltb_lt]; lia).
   change (lib_pick_nonce d (lib_digest msg) None) with (rfc6979_nonce d (sha256 (hex_ascii (lib_digest msg)))).
   destruct (ecdsa_sign _ _ _) as [[r s0]|]; [|reflexivity].
   replace ((0 <=? ht) && (ht <? 256)) with true; [reflexivity|].
@@ -123,11 +129,13 @@ Proof.
 Qed.
 
 (* with an explicit non-zero nonce: the same with that nonce *)
-Lemma lib_sign_explicit d msg k ht : 0 <= ht < 256 -> k <> 0 ->
+Lemma lib_sign_explicit d msg k ht : 1 <= d < secp_n -> 0 <= ht < 256 -> k <> 0 ->
   lib_sign d msg (Some k) ht =
   with_der ht (spec_sign d (lib_z (lib_digest msg)) k).
 Proof.
-  intros Hht Hk. unfold lib_sign. rewrite lib_sign_with_eq. cbv zeta. unfold with_der, spec_sign, spec_normalise.
+  intros Hd Hht Hk. unfold lib_sign. rewrite lib_sign_with_eq. cbv zeta. unfold with_der, spec_sign, spec_normalise.
+  replace ((1 <=? d) && (d <? secp_n)) with true
+    by (symmetry; apply andb_true_iff; split; [apply Z.leb_le|apply Z.ltb_lt]; lia).
   unfold lib_pick_nonce. destruct (k =? 0) eqn:E; [apply Z.eqb_eq in E; contradiction|].
   destruct (ecdsa_sign _ _ _) as [[r s0]|]; [|reflexivity].
   replace ((0 <=? ht) && (ht <? 256)) with true; [reflexivity|].
@@ -269,6 +277,187 @@ Lemma lib_verify_accepts_iff dg sig Q :
   (lib_verify dg sig Q = Some true <-> spec_verify (lib_z dg) sig Q = Some true).
 Proof. intros. rewrite lib_verify_exact by assumption. reflexivity. Qed.
 
+(* ---------------------------------------------------------------- the public key given as bytes *)
+
+(* a private key outside [1, n-1] never signs (Key() refuses it) *)
+Lemma lib_sign_key_range low d msg k ht : ~ (1 <= d < secp_n) -> lib_sign_with low d msg k ht = None.
+Proof.
+  intros Hd. rewrite lib_sign_with_eq. cbv zeta.
+  destruct ((1 <=? d) && (d <? secp_n)) eqn:E; [|reflexivity].
+  apply andb_true_iff in E. destruct E as [E1 E2]. apply Z.leb_le in E1. apply Z.ltb_lt in E2. lia.
+Qed.
+
+Lemma secp_p_pos : 0 < secp_p.
+Proof. unfold secp_p. lia. Qed.
+
+Lemma cong_sub a b : a mod secp_p = b mod secp_p -> (a - b) mod secp_p = 0.
+Proof. intros H. rewrite Zminus_mod, H, Z.sub_diag. apply Z.mod_0_l. pose proof secp_p_pos. lia. Qed.
+
+Lemma sub_cong a b : (a - b) mod secp_p = 0 -> a mod secp_p = b mod secp_p.
+Proof.
+  intros H. pose proof secp_p_pos as Hp. pose proof (Z.div_mod (a - b) secp_p ltac:(lia)) as Hd.
+  rewrite H in Hd. replace a with (b + ((a - b) / secp_p) * secp_p) by lia. apply Z_mod_plus_full.
+Qed.
+
+Lemma cong_eqb a b : (a mod secp_p =? b mod secp_p) = ((a - b) mod secp_p =? 0).
+Proof.
+  destruct (a mod secp_p =? b mod secp_p) eqn:E.
+  - apply Z.eqb_eq in E. symmetry. apply Z.eqb_eq. apply cong_sub. exact E.
+  - apply Z.eqb_neq in E. symmetry. apply Z.eqb_neq. intros H. apply E. apply sub_cong. exact H.
+Qed.
+
+Lemma powmod_pos_range e : forall b m, 0 < m -> 0 <= powmod_pos b e m < m.
+Proof. destruct e; intros b m Hm; cbn [powmod_pos]; cbv zeta; apply Z.mod_pos_bound; exact Hm. Qed.
+
+Lemma mod_sqrt_range a : 0 <= mod_sqrt a < secp_p.
+Proof.
+  pose proof secp_p_pos as Hp. unfold mod_sqrt, powmod. destruct secp_sqrt_exp.
+  - apply Z.mod_pos_bound. exact Hp.
+  - apply powmod_pos_range. exact Hp.
+  - lia.
+Qed.
+
+(* the congruence survives reduction of the coordinates, and the reduced point is a curve point in SEC 1's sense *)
+Lemma on_curve_reduce x y : lib_on_curve (x, y) = true -> on_curve (Some (x mod secp_p, y mod secp_p)) = true.
+Proof.
+  unfold lib_on_curve, on_curve. intros H. apply Z.eqb_eq in H. pose proof secp_p_pos as Hp.
+  pose proof (Z.mod_pos_bound x secp_p Hp) as Hx. pose proof (Z.mod_pos_bound y secp_p Hp) as Hy.
+  pose proof (Z.div_mod x secp_p ltac:(lia)) as Dx. pose proof (Z.div_mod y secp_p ltac:(lia)) as Dy.
+  set (rx := x mod secp_p) in *. set (ry := y mod secp_p) in *. set (qx := x / secp_p) in *. set (qy := y / secp_p) in *.
+  set (p := secp_p) in *.
+  repeat (apply andb_true_iff; split); try apply Z.leb_le; try apply Z.ltb_lt; try lia.
+  apply Z.eqb_eq. rewrite <- H.
+  replace (y * y - (x * x * x + secp_b)) with
+    ((ry * ry - (rx * rx * rx + secp_b)) +
+     ((2 * qy * ry + p * qy * qy) - (3 * qx * rx * rx + 3 * p * qx * qx * rx + p * p * qx * qx * qx)) * p)
+    by (rewrite Dx, Dy; ring).
+  symmetry. apply Z_mod_plus_full.
+Qed.
+
+Lemma lib_pub_point_eq b : lib_pub_point b =
+  match b with
+  | pfx :: rest =>
+      if ((bz pfx =? 2) || (bz pfx =? 3)) && (length rest =? 32)%nat then
+        let x := of_be rest in
+        let y2 := (x * x * x + secp_b) mod secp_p in
+        let y0 := mod_sqrt y2 in
+        if (secp_p <=? x) || negb ((y0 * y0) mod secp_p =? y2) then None
+        else Some (x, if Bool.eqb (Z.odd y0) (bz pfx =? 3) then y0 else secp_p - y0)
+      else if (bz pfx =? 4) && (length rest =? 64)%nat then
+        let x := of_be (firstn 32 rest) in
+        let y := of_be (skipn 32 rest) in
+        let y2 := (x * x * x + secp_b) mod secp_p in
+        if (secp_p <=? x) || (secp_p <=? y) || negb ((y * y) mod secp_p =? y2) then None
+        else Some (x, y)
+      else None
+  | [] => None
+  end.
+Proof. reflexivity. Qed.
+
+Lemma parse_point_eq b : parse_point b =
+  match b with
+  | pfx :: rest =>
+      if (bz pfx =? 2) || (bz pfx =? 3) then
+        if (length rest =? 32)%nat then decompress (bz pfx =? 3) (of_be rest) else None
+      else if bz pfx =? 4 then
+        if (length rest =? 64)%nat then
+          let P := (of_be (firstn 32 rest), of_be (skipn 32 rest)) in
+          if on_curve (Some P) then Some P else None
+        else None
+      else None
+  | [] => None
+  end.
+Proof. reflexivity. Qed.
+
+Lemma decompress_eq parity x : decompress parity x =
+  if (x <? 0) || (secp_p <=? x) then None
+  else
+    let a := (x * x * x + secp_b) mod secp_p in
+    let y := mod_sqrt a in
+    if (y * y) mod secp_p =? a then
+      Some (x, if Bool.eqb (Z.odd y) parity then y else (secp_p - y) mod secp_p)
+    else None.
+Proof. reflexivity. Qed.
+
+(* Key(bytes) (strict) against SEC 1 2.3.4: refused together, or accepted together with the library's point
+   passing the Signature.public_key check and reducing to the standard point, which is a valid public key *)
+Definition key_agree (pk : bytes) : Prop :=
+  (lib_pub_point pk = None /\ parse_point pk = None) \/
+  (exists Ql Qs, lib_pub_point pk = Some Ql /\ parse_point pk = Some Qs /\
+                 lib_on_curve Ql = true /\ reduce_pt Ql = Some Qs /\ spec_pub_ok Qs = true).
+
+Lemma key_agree_built x yl : 0 <= x < secp_p -> lib_on_curve (x, yl) = true ->
+  lib_on_curve (x, yl) = true /\ reduce_pt (x, yl) = Some (x, yl mod secp_p) /\ spec_pub_ok (x, yl mod secp_p) = true.
+Proof.
+  intros Hx Hoc. split; [exact Hoc|]. split.
+  - unfold reduce_pt. rewrite (Z.mod_small x) by lia. reflexivity.
+  - unfold spec_pub_ok. pose proof (on_curve_reduce x yl Hoc) as H. rewrite (Z.mod_small x) in H by lia. exact H.
+Qed.
+
+Local Opaque secp_p mod_sqrt.
+Lemma lib_pub_point_spec pk : key_agree pk.
+Proof.
+  unfold key_agree. rewrite lib_pub_point_eq, parse_point_eq. pose proof secp_p_pos as Hp.
+  destruct pk as [|pfx rest]; [left; split; reflexivity|].
+  destruct ((bz pfx =? 2) || (bz pfx =? 3)) eqn:E23.
+  - (* compressed prefix *)
+    assert (E4 : (bz pfx =? 4) = false).
+    { apply Z.eqb_neq. apply orb_true_iff in E23. destruct E23 as [E|E]; apply Z.eqb_eq in E; lia. }
+    destruct (length rest =? 32)%nat eqn:EL; cbn [andb]; [|rewrite E4; cbn [andb]; left; split; reflexivity].
+    cbv zeta. rewrite decompress_eq. cbv zeta.
+    pose proof (of_be_range rest) as [Hx0 _].
+    set (x := of_be rest) in *. set (y2 := (x * x * x + secp_b) mod secp_p). set (y0 := mod_sqrt y2).
+    replace (x <? 0) with false by (symmetry; apply Z.ltb_ge; lia). cbn [orb].
+    destruct (secp_p <=? x) eqn:Ex; cbn [orb]; [left; split; reflexivity|]. apply Z.leb_gt in Ex.
+    destruct ((y0 * y0) mod secp_p =? y2) eqn:Ey; cbn [negb]; [|left; split; reflexivity].
+    apply Z.eqb_eq in Ey. right.
+    pose proof (mod_sqrt_range y2) as Hy0. fold y0 in Hy0.
+    assert (Hc0 : lib_on_curve (x, y0) = true).
+    { unfold lib_on_curve. apply Z.eqb_eq. apply cong_sub. rewrite Ey. reflexivity. }
+    clearbody y0. clearbody y2. clearbody x.
+    destruct (Bool.eqb (Z.odd y0) (bz pfx =? 3)).
+    + exists (x, y0), (x, y0). split; [reflexivity|]. split; [reflexivity|].
+      destruct (key_agree_built x y0 ltac:(lia) Hc0) as (A & B & C). rewrite (Z.mod_small y0) in B, C by lia. auto.
+    + exists (x, secp_p - y0), (x, (secp_p - y0) mod secp_p). split; [reflexivity|]. split; [reflexivity|].
+      apply key_agree_built; [lia|].
+      unfold lib_on_curve in *. apply Z.eqb_eq in Hc0. apply Z.eqb_eq. rewrite <- Hc0.
+      replace ((secp_p - y0) * (secp_p - y0) - (x * x * x + secp_b))
+        with ((y0 * y0 - (x * x * x + secp_b)) + (secp_p - 2 * y0) * secp_p) by ring.
+      apply Z_mod_plus_full.
+  - cbn [andb]. destruct (bz pfx =? 4) eqn:E4; [|left; split; reflexivity].
+    destruct (length rest =? 64)%nat eqn:EL; cbn [andb]; [|left; split; reflexivity].
+    cbv zeta. pose proof (of_be_range (firstn 32 rest)) as [Hx0 _]. pose proof (of_be_range (skipn 32 rest)) as [Hy0 _].
+    set (x := of_be (firstn 32 rest)) in *. set (y := of_be (skipn 32 rest)) in *.
+    assert (Hoc : on_curve (Some (x, y)) =
+                  negb ((secp_p <=? x) || (secp_p <=? y) || negb ((y * y) mod secp_p =? (x * x * x + secp_b) mod secp_p))).
+    { unfold on_curve. rewrite cong_eqb.
+      replace (0 <=? x) with true by (symmetry; apply Z.leb_le; lia).
+      replace (0 <=? y) with true by (symmetry; apply Z.leb_le; lia).
+      rewrite (Z.ltb_antisym secp_p x), (Z.ltb_antisym secp_p y).
+      destruct (secp_p <=? x), (secp_p <=? y), ((y * y - (x * x * x + secp_b)) mod secp_p =? 0); reflexivity. }
+    rewrite Hoc.
+    destruct ((secp_p <=? x) || (secp_p <=? y) || negb ((y * y) mod secp_p =? (x * x * x + secp_b) mod secp_p)) eqn:Ec;
+      cbn [negb]; [left; split; reflexivity|].
+    right. exists (x, y), (x, y). split; [reflexivity|]. split; [reflexivity|].
+    apply orb_false_iff in Ec. destruct Ec as [Ec Ec3]. apply orb_false_iff in Ec. destruct Ec as [Ec1 Ec2].
+    apply Z.leb_gt in Ec1. apply Z.leb_gt in Ec2. apply negb_false_iff in Ec3.
+    assert (Hc : lib_on_curve (x, y) = true) by (unfold lib_on_curve; rewrite <- cong_eqb; exact Ec3).
+    destruct (key_agree_built x y ltac:(lia) Hc) as (A & B & C). rewrite (Z.mod_small y) in B, C by lia. auto.
+Qed.
+Local Transparent secp_p mod_sqrt.
+
+(* lib_verify_key_exact: verify(digest, signature bytes, public key bytes) is standard ECDSA on the strictly
+   decoded signature and the SEC 1 decoded key — no guard on the key any more *)
+Lemma lib_verify_key_exact dg sig pk :
+  dg <> [] -> der64 sig = false -> lax_der sig = false ->
+  lib_verify_key dg sig pk = spec_verify_key (lib_z dg) sig pk.
+Proof.
+  intros Hdg Hshort Hlax. unfold lib_verify_key, spec_verify_key.
+  destruct (lib_pub_point_spec pk) as [[-> ->]|(Ql & Qs & -> & -> & Hoc & Hrp & Hok)]; [reflexivity|].
+  rewrite lib_verify_filt, spec_verify_filt, (parse_agree sig Hshort Hlax), Hoc, Hrp, Hok.
+  destruct dg as [|b0 dg']; [contradiction|]. cbn [length Nat.eqb negb andb]. reflexivity.
+Qed.
+
 (* ---------------------------------------------------------------- sign, then parse, then verify *)
 
 Lemma der_int_lib_ok v : 0 < v < 2 ^ 256 -> lib_int_ok (der_int v) = true.
@@ -283,7 +472,7 @@ Lemma lib_sign_parse_roundtrip d msg k ht r s enc : lib_sign d msg k ht = Some (
   Z.of_nat (length enc) <> 64 -> lib_parse enc = Some (r, s, ht).
 Proof.
   intros H Hlen. destruct (lib_sign_low_s _ _ _ _ _ _ _ H) as [Hr Hs].
-  destruct (lib_sign_inv _ _ _ _ _ _ _ _ H) as (s0 & _ & _ & -> & Hht).
+  destruct (lib_sign_inv _ _ _ _ _ _ _ _ H) as (s0 & _ & _ & -> & Hht & _).
   pose proof secp_n_lt_2_256. pose proof half_lt_n.
   assert (Hr' : 0 < r < 2 ^ 256) by lia. assert (Hs' : 0 < s < 2 ^ 256) by lia.
   unfold lib_parse. rewrite lib_sig_parse_eq.
@@ -328,7 +517,7 @@ Proof.
   intros Laws Hk HQ Hred Hoc Hdg Hlen H.
   destruct (lib_sign_low_s _ _ _ _ _ _ _ H) as [Hr Hs].
   pose proof (lib_sign_parse_roundtrip _ _ _ _ _ _ _ H Hlen) as Hp.
-  destruct (lib_sign_inv _ _ _ _ _ _ _ _ H) as (s0 & Hsig & Hs0 & _ & _).
+  destruct (lib_sign_inv _ _ _ _ _ _ _ _ H) as (s0 & Hsig & Hs0 & _ & _ & _).
   assert (Hnonce : 1 <= lib_pick_nonce d (lib_digest msg) k < secp_n).
   { assert (Hnz : lib_pick_nonce d (lib_digest msg) k <> 0).
     { intros E0. rewrite E0 in Hsig. exact (ecdsa_sign_nonce_nonzero _ _ _ _ Hsig). }
